@@ -5,7 +5,7 @@ code base (stale-after-callback, unlink-before-call for one-shot objects,
 unregister reaches every holder, no callback while a kernel batch is live).
 Not decided: sufficiency over all histories and kernel behaviours.
 """
-from ..core import (AnalysisBroken, Inliner, canon, strip, strip_load, last_member, must_pass, relpath,
+from ..core import (names_of, same_value, AnalysisBroken, Inliner, canon, strip, strip_load, last_member, must_pass, relpath,
                     norm_cond, walk, forward, lvalue_steps, evloc)
 from ..analyses import (is_call, holding, atoms_reading, path_to, describe, exits_of, callback_kind,
                         stale_after_callback, loops, innermost_loop, USER_OBJECT_RECORDS, locksets, held,
